@@ -217,6 +217,7 @@ static int h_parsecb(cfg_t *cfg, cfg_opt_t *opt, const char *value, void *result
 	fprintf(LOG, ",\"tok\":%ld,\"fail\":%d}\n", tok, fail);
 	evflush();
 	if (fail) { cfg_error(cfg, "verif: parse callback refuses"); return 1; }
+	errno = ERANGE;		/* a callback that accepts may leave errno in any state: its return value is what counts */
 	return 0;
 }
 
